@@ -4,10 +4,13 @@
 package fwlib
 
 import (
+	"context"
 	"fmt"
 	"log/slog"
 	"net/netip"
 	"strings"
+	"testing"
+	"testing/synctest"
 	"time"
 
 	"github.com/gaissmai/bart"
@@ -181,6 +184,8 @@ func ParsePacket(a []string) firewall.Packet {
 func Logger() *slog.Logger { return slog.New(slog.DiscardHandler) }
 
 type Exec struct {
+	T       *testing.T
+	cancel  context.CancelFunc
 	L       *slog.Logger
 	My      *Cert
 	DLCA    bool
@@ -254,7 +259,20 @@ func (e *Exec) Do(a []string) string {
 		e.Pool = cert.NewCAPool()
 		e.Peers = map[string]*nebula.HostInfo{}
 		e.PeerC = map[string]*cert.CachedCertificate{}
-		e.Cache = func() firewall.ConntrackCache { return nil }
+		// the routine-local conntrack cache with its real ticker goroutine (virtual time under synctest)
+		if e.cancel != nil {
+			e.cancel()
+			e.cancel = nil
+		}
+		if e.CacheNS > 0 {
+			ctx, cancel := context.WithCancel(e.T.Context())
+			e.cancel = cancel
+			tk := firewall.NewConntrackCacheTicker(ctx, e.L, e.CacheNS)
+			e.Cache = func() firewall.ConntrackCache { return tk.Get() }
+		} else {
+			var tk *firewall.ConntrackCacheTicker // what NewConntrackCacheTicker returns for d == 0
+			e.Cache = func() firewall.ConntrackCache { return tk.Get() }
+		}
 		if e.OnReset != nil {
 			e.OnReset(e)
 		}
@@ -287,6 +305,10 @@ func (e *Exec) Do(a []string) string {
 		return ErrKind(e.Fw.Drop(ParsePacket(a[3:9]), a[2] == "in", h, e.Pool, e.Cache()))
 	case "clear":
 		nebula.VerifFwClearConntrack(e.Fw)
+		return "ok"
+	case "sleep":
+		time.Sleep(time.Duration(hlib.Atou(a[1])))
+		synctest.Wait() // let the cache ticker goroutine see every tick up to now
 		return "ok"
 	}
 	if e.Extra != nil {
